@@ -1,0 +1,7 @@
+// Copyright (c) The nextest Contributors
+// SPDX-License-Identifier: MIT OR Apache-2.0
+
+//! Verification hooks (feature `verif-hooks`).
+//!
+//! Thin, add-only wrappers that expose crate-private pure functions to external verification
+//! machinery. Nothing in this module is used by nextest itself.
